@@ -21,7 +21,7 @@
 (*   <<"recv", seq, rc, t, fb, fc>>      a datagram read from the socket   *)
 (*                                       (fb, fc: whom it answers - not    *)
 (*                                       used by any clause)               *)
-(*   <<"callback", c, rb, rc_, rcode, t>> the callback of command c was    *)
+(*   <<"callback", c, rb, rc_, rcode, t, whole>> the callback of c was      *)
 (*                                       called with a packet that is the  *)
 (*                                       reply generated for command rc_   *)
 (*                                       of call rb, return code rcode     *)
@@ -89,6 +89,9 @@ Checks(e) ==
             KnownCommand     |-> known,
             AtMostOnce       |-> known => st.done[cmd] = 0,
             RightReply       |-> e[3] = st.b /\ e[4] = cmd /\ e[5] = RcOk,
+            \* "the reply to that very command": all of it, not a truncated datagram (e[7] = 1: the data handed
+            \* over equals the data of the reply that names this command, compared byte by byte by the harness)
+            WholeReply       |-> Len(e) >= 7 => e[7] = 1,
             CallbackHasReply |-> cmd \in st.answered]
     [] e[1] = "raise" ->
         LET kind == e[2]  cmd == e[3]
